@@ -226,22 +226,27 @@ def rule_e(ctx):
             ctx.ob("embedded-key-fresh|%s" % b.name, ok_new, "the key embedded in the action is (a clone of) a fresh ActionKey::new()", [ct])
             # returned key
             ret_ok = False
+            every = True
             for r in K.ret_assigns(b):
                 if r.is_term:
                     continue
                 rv = r.node["r"]
-                if rv["r"] == "agg":
+                if rv["r"] == "agg" and rv.get("variant") != "Err":
+                    this = False
                     for op in rv["ops"]:
                         oo = b.origins(op, r)
                         if oo == ko:
-                            ret_ok = True
+                            this = True
                         # tuple (action, key)
                         for x in oo:
                             if x[0] == "agg":
                                 a = Site(b, x[1], x[2])
                                 for op2 in a.node["r"]["ops"]:
                                     if b.origins(op2, a) == ko:
-                                        ret_ok = True
+                                        this = True
+                    ret_ok = ret_ok or this
+                    every = every and this
+            ret_ok = ret_ok and every
             ctx.ob("returned-key-is-same|%s" % b.name, ret_ok and ok_new, "the key handed back to the caller shares the flag of the embedded key", [ct])
     ctx.ob("floor|keyed-constructions", n >= 4, "expected >= 4 constructions of keyed actions (2 scheduling fns + 2 EventSource fns); found %d" % n)
 
